@@ -248,7 +248,57 @@ def _global_rename_stage_attrs(root: str) -> None:
                 fh.write("\n".join(lines))
 
 
+def _global_hoist_compared_strings(root: str) -> None:
+    """string literals that a module compares with (`x == "Balance"`, `k != "input-balanced"`) become module-level
+    constants `_STR_<n>`: a common clean-up that no rule may trip over (labels are folded, not matched as literals)"""
+    import ast as _ast
+
+    for dp, _dn, fn in os.walk(os.path.join(root, "synrbl")):
+        for f in fn:
+            if not f.endswith(".py"):
+                continue
+            path = os.path.join(dp, f)
+            with open(path, encoding="utf-8") as fh:
+                src = fh.read()
+            if not src.isascii():
+                continue
+            try:
+                tree = _ast.parse(src)
+            except SyntaxError:
+                continue
+            consts = []
+            for n in _ast.walk(tree):
+                if isinstance(n, _ast.Compare) and len(n.ops) == 1 and isinstance(n.ops[0], (_ast.Eq, _ast.NotEq)):
+                    for c in (n.left, n.comparators[0]):
+                        if isinstance(c, _ast.Constant) and isinstance(c.value, str) and c.value and c.lineno == c.end_lineno:
+                            consts.append(c)
+            if not consts:
+                continue
+            names = {}
+            lines = src.split("\n")
+            for c in sorted(consts, key=lambda c: (c.lineno, c.col_offset), reverse=True):
+                nm = names.setdefault(c.value, "_STR_%d" % len(names))
+                line = lines[c.lineno - 1]
+                lines[c.lineno - 1] = line[: c.col_offset] + nm + line[c.end_col_offset :]
+            # definitions after the imports / docstring
+            body = tree.body
+            at = 0
+            for i, st in enumerate(body):
+                if isinstance(st, (_ast.Import, _ast.ImportFrom)) or (i == 0 and isinstance(st, _ast.Expr) and isinstance(getattr(st, "value", None), _ast.Constant)):
+                    at = st.end_lineno
+            defs = ["%s = %r" % (nm, val) for val, nm in names.items()]
+            lines[at:at] = [""] + defs + [""]
+            new = "\n".join(lines)
+            try:
+                _ast.parse(new)
+            except SyntaxError:
+                continue
+            with open(path, "w", encoding="utf-8") as fh:
+                fh.write(new)
+
+
 GLOBAL_VARIANTS = {
+    "global-benign-hoist-compared-strings": _global_hoist_compared_strings,
     "global-benign-rename-stage-attributes": _global_rename_stage_attrs,
     "global-benign-reformat": _global_reformat,
     "global-benign-shuffle-methods-noop": _global_shuffle,
